@@ -217,7 +217,29 @@ def _iter_exit(fn, e, drv):
     return c[0] == "discr" and strip(c[1])[0] == "call" and strip(c[1])[3] == drv.get("call_bb")
 
 
+ADDRESS_FILES = ("src/rete/memoization.rs", "src/rete/alpha_memory_index.rs", "src/rete/optimization.rs", "src/backward/conclusion_index.rs")
+
+
+def _no_address_keys(P, R):
+    """A key must be a function of the content it stands for. A pointer turned into an integer (`node as *const _ as usize`) is
+    the value's address: another value at the same address later (edited in place, a reused Vec slot or stack slot) gets the
+    cached entry of the first."""
+    n = 0
+    for fn in sorted(P.fns.values(), key=lambda f: f.name):
+        if fn.file not in ADDRESS_FILES:
+            continue
+        for b in sorted(fn.normal_blocks()):
+            for st in fn.stmts(b):
+                if st[2] == "=" and st[4][0] == "cast" and "ExposeProvenance" in str(st[4][1]) and not st[1]:
+                    n += 1
+                    R.violate("c", "address-as-key:%s" % fn.short_name,
+                              "%s turns a pointer into an integer (line %d): a cache or index keyed by an address returns the entry of whatever value lived there before, not of the value asked about" % (fn.short_name, st[0]), fn, st[0])
+    if n == 0:
+        R.hold("c", "no pointer-to-integer cast in the keyed shortcuts (keys are functions of content, not of addresses)")
+
+
 def _memo(P, R):
+    _no_address_keys(P, R)
     ev = P.one("rete::memoization::MemoizedEvaluator::evaluate", inline=False)   # the key helpers hash by side effect: keep them as calls
     ins = [c for (c, s) in A.calls_with_receiver_field(ev, "cache", "rete::memoization::MemoizedEvaluator") if c.name.endswith("HashMap::insert")]
     gets = [c for (c, s) in A.calls_with_receiver_field(ev, "cache", "rete::memoization::MemoizedEvaluator") if c.name.endswith("HashMap::get")]
